@@ -7,8 +7,10 @@ import time
 from . import tlc
 
 VERIF = tlc.VERIF
-EVIDENCE_DIR = os.path.join(VERIF, "evidence")
-REPLAY_DIR = os.path.join(VERIF, "replays")
+# evidence / replays of a run against a scratch copy (tools/) go to a scratch directory, never over the real ones
+_OUT = os.environ.get("VERIF_SCRATCH_OUT") or VERIF
+EVIDENCE_DIR = os.path.join(_OUT, "evidence")
+REPLAY_DIR = os.path.join(_OUT, "replays")
 KNOWN = os.path.join(VERIF, "KNOWN_FINDINGS.json")
 
 
